@@ -62,7 +62,12 @@ LAYERED = [  # (indices, radii) physical, medium 1.33, wl 0.66
     ([1.7, 1.2, 1.45 + 0.01j], [0.1, 0.5, 0.9]),
     ([1.45, 1.7, 1.5], [0.3, 0.35, 0.8]),
     ([1.45, 1.59, 1.59], [0.2, 0.35, 0.5]),
+    # absorbing layers outside the core, optically thick
+    ([1.59, 1.45 + 0.2j], [0.4, 0.8]),
+    ([1.59, 1.45 + 0.01j], [1.2, 2.5]),
+    ([1.45 + 0.05j, 1.59 + 0.1j, 1.4 + 0.02j], [0.3, 0.8, 1.3]),
 ]
+LAYERED_QUICK_EXTRA = (10, 11)
 MS_POLS = [(1, 0), (0, 1), (0.6, -0.8), (1, 0), (0, 1), (0.6, -0.8), (1, 1),
            (0, 1)]
 MS_ONE = {"quick": [(1.2, 3.0), (1.2 + 0.01j, 1.0)],
@@ -88,8 +93,8 @@ def cases(tier, seed):
                         "m": _mm(m), "x": x})
             reqs.append(mie_ref.req_homog(m, x))
     for i, (ns, rs) in enumerate(LAYERED):
-        if tier == "quick" and i >= 5:
-            break
+        if tier == "quick" and i >= 5 and i not in LAYERED_QUICK_EXTRA:
+            continue
         out.append({"id": "layered#%d" % i, "kind": "layered", "i": i})
         k = 2 * math.pi * 1.33 / 0.66
         reqs.append(mie_ref.req_layered([n / 1.33 for n in ns],
